@@ -117,6 +117,8 @@ struct Inner {
     flush_fault_call: Option<usize>,
     /// transient: exactly this write / flush call returns ErrorKind::Interrupted once, nothing is consumed
     write_interrupt_call: Option<usize>,
+    /// transient: exactly this write call accepts 0 bytes (Ok(0)) once
+    write_zero_call: Option<usize>,
     flush_interrupt_call: Option<usize>,
     shutdown_mode: ShutdownMode,
     shutdown_seen: bool,
@@ -178,6 +180,7 @@ pub fn pipe(cfg: PipeCfg) -> (PipeWriter, PipeReader, Pipe) {
         write_fault_after_bytes: None,
         flush_fault_call: None,
         write_interrupt_call: None,
+        write_zero_call: None,
         flush_interrupt_call: None,
         shutdown_mode: ShutdownMode::Ok,
         shutdown_seen: false,
@@ -241,6 +244,12 @@ impl Pipe {
         let mut g = self.0.lock().unwrap();
         let base = g.write_calls;
         g.write_interrupt_call = Some(base + n);
+    }
+    /// The n-th write call from now accepts 0 bytes once (Ok(0): legal, `write_all` reports WriteZero).
+    pub fn set_write_zero_call(&self, n: usize) {
+        let mut g = self.0.lock().unwrap();
+        let base = g.write_calls;
+        g.write_zero_call = Some(base + n);
     }
     /// The n-th flush call from now returns ErrorKind::Interrupted once.
     pub fn set_flush_interrupt_call(&self, n: usize) {
@@ -455,6 +464,13 @@ impl AsyncWrite for PipeWriter {
             let t = g.t_ms();
             g.log.push(Ev::WriteErr { t_ms: t });
             return Poll::Ready(Err(io::Error::new(io::ErrorKind::Interrupted, "interrupted")));
+        }
+        if g.write_zero_call == Some(call) && !data.is_empty() {
+            g.write_zero_call = None;
+            g.write_calls += 1;
+            let t = g.t_ms();
+            g.log.push(Ev::WriteErr { t_ms: t });
+            return Poll::Ready(Ok(0));
         }
         let broken = g.w_closed
             || g.r_dropped
